@@ -58,6 +58,53 @@ let rp_case (f : string array) : string =
       Printf.sprintf "%s dl=%s nh=%d" (hex out) (string_of_opt_n r.Model.data_length)
         (List.length r.Model.rheaders)
 
+(* ---- cv: one conversation ---- *)
+let parse_action (a : string) : Model.action =
+  let (r, f) = split2 '/' a in
+  let reads = List.map (fun x ->
+      let (m, n) = split2 '@' x in
+      ((if m = "*" then Model.aLL else n_of_string m), nat_of_int (int_of_string n)))
+      (split_list ',' r) in
+  let rest = String.sub f 1 (String.length f - 1) in
+  let fin = match f.[0] with
+    | 'R' -> (match String.split_on_char ':' rest with
+              | [st; body; d] -> Model.FRespond (n_of_string st, unhex body, d = "1")
+              | _ -> failwith "R")
+    | 'D' | 'P' -> Model.FDrop
+    | 'W' -> Model.FWriter (unhex rest)
+    | 'U' -> Model.FUpgrade (unhex rest)
+    | _ -> failwith "finish" in
+  { Model.a_reads = reads; Model.a_finish = fin }
+
+let end_str (e : Model.read_end) = match e with
+  | Model.EndCount -> "count" | Model.EndEof -> "eof" | Model.EndErr -> "err" | Model.EndBlock -> "block"
+
+let req_str (d : Model.delivered) : string =
+  let (a, b) = d.Model.d_ver in
+  Printf.sprintf "[m=%s,u=%s,v=%s.%s,h=%s,bl=%s,rd=%s,e=%s]"
+    (hex d.Model.d_method) (hex d.Model.d_url) (string_of_n a) (string_of_n b)
+    (match d.Model.d_headers with
+     | [] -> "-"
+     | hs -> String.concat "+" (List.map (fun h -> hex h.Model.hname ^ ":" ^ hex h.Model.hvalue) hs))
+    (string_of_opt_n d.Model.d_body_length) (hex d.Model.d_read) (end_str d.Model.d_end)
+
+let cv_outcome (f : string array) : Model.outcome =
+  let eof = f.(2) = "1" in
+  let cfg = if f.(3) = "a" then Model.asfound else Model.fixed in
+  let input = unhex f.(4) in
+  let acts = List.map parse_action (String.split_on_char ';' f.(5)) in
+  let dflt = List.nth acts (List.length acts - 1) in
+  Model.serve cfg canon_date acts dflt input eof
+
+let cv_case (f : string array) : string =
+  let o = cv_outcome f in
+  if not o.Model.o_modelled then "U"
+  else
+    Printf.sprintf "n=%d %swire=%s end=%s stray=0" (List.length o.Model.o_reqs)
+      (String.concat "" (List.map (fun d -> req_str d ^ " ") o.Model.o_reqs))
+      (hex o.Model.o_wire)
+      (match o.Model.o_end with Model.CClosed -> "closed" | Model.COpen -> "open" | Model.CHang -> "hang")
+
 let verdict (v : Model.verdict) : string =
   match v with
   | Model.VOk -> "OK"
@@ -114,6 +161,7 @@ let () =
           try
             match f.(0) with
             | "rp" -> rp_case f
+            | "cv" -> cv_case f
             | x when String.length x > 5 && String.sub x 0 5 = "spec:" ->
                 spec_case (String.sub x 5 (String.length x - 5)) f
             | x -> "UNKNOWN-EXECUTOR " ^ x
